@@ -1,23 +1,32 @@
 #!/bin/sh
-# tools/seed_eval.sh <seed-id> <worktree> <property> [more properties...]
-# Confirms a seeded mutation (tests green with it, demo fails with / passes without) and runs the
-# quick checks of the named properties against the worktree (VF_REPO), never touching /repo.
+# tools/seed_eval.sh <seed-id> <dir holding patch.diff + demo_*.py> <property> [more properties...]
+# Confirms a seeded mutation in a fresh scratch worktree (demo passes without / fails with the change,
+# test-suite green with it) and runs the quick checks of the named properties against that worktree
+# (VF_REPO), never touching /repo.  No git stash (stashes are shared between worktrees).
 set -u
-ID=$1; WT=$2; shift 2
+ID=$1; SRC=$2; shift 2
 cd /verif
 mkdir -p seeded/$ID
-cp $WT/patch.diff seeded/$ID/patch.diff
-cp $WT/demo_*.py seeded/$ID/ 2>/dev/null
-OUT=seeded/$ID/eval.log
+[ "$SRC" != "seeded/$ID" ] && cp $SRC/patch.diff seeded/$ID/patch.diff && cp $SRC/demo_*.py seeded/$ID/ 2>/dev/null
+EV=/tmp/ev_$ID
+git -C /repo worktree remove --force $EV >/dev/null 2>&1; rm -rf $EV
+git -C /repo worktree add -q --detach $EV HEAD || exit 3
+cp seeded/$ID/demo_*.py $EV/
+OUT=/verif/seeded/$ID/eval.log
 : > $OUT
-echo "== demo with change" >> $OUT
-( cd $WT && PYTHONPATH=$WT/src timeout 600 /venv/bin/python demo_*.py >> /verif/$OUT 2>&1; echo "exit=$?" >> /verif/$OUT )
 echo "== demo without change" >> $OUT
-( cd $WT && git stash -q -- src && PYTHONPATH=$WT/src timeout 600 /venv/bin/python demo_*.py >> /verif/$OUT 2>&1; echo "exit=$?" >> /verif/$OUT; git stash pop -q )
+( cd $EV && PYTHONPATH=$EV/src timeout 900 /venv/bin/python demo_*.py 2>&1 | tail -4 >> $OUT; )
+( cd $EV && PYTHONPATH=$EV/src timeout 900 /venv/bin/python demo_*.py >/dev/null 2>&1; echo "exit=$?" >> $OUT )
+( cd $EV && git apply /verif/seeded/$ID/patch.diff ) || { echo "patch does not apply" >> $OUT; exit 3; }
+echo "== demo with change" >> $OUT
+( cd $EV && PYTHONPATH=$EV/src timeout 900 /venv/bin/python demo_*.py 2>&1 | tail -4 >> $OUT; )
+( cd $EV && PYTHONPATH=$EV/src timeout 900 /venv/bin/python demo_*.py >/dev/null 2>&1; echo "exit=$?" >> $OUT )
 echo "== test-suite with change" >> $OUT
-( cd $WT && PYTHONPATH=$WT/src timeout 1500 /venv/bin/python -m pytest -q -p no:cacheprovider -n 6 -k "not postgres" tests 2>&1 | tail -3 >> /verif/$OUT )
+( cd $EV && PYTHONPATH=$EV/src timeout 1800 /venv/bin/python -m pytest -q -p no:cacheprovider -n 6 -k "not postgres" tests 2>&1 | tail -2 >> $OUT )
 for P in "$@"; do
-  echo "== check $P (quick) against the worktree" >> $OUT
-  VF_REPO=$WT VF_EVID=/tmp/vf_evid_$ID ./check $P --tier quick 2>&1 | grep -E "VIOLATION|KNOWN|HARNESS|tier=|key=" | cut -c1-600 >> $OUT
+  echo "== check $P (${SEED_TIER:-quick}) against the worktree" >> $OUT
+  VF_REPO=$EV VF_EVID=/tmp/vf_evid_$ID ./check $P --tier ${SEED_TIER:-quick} 2>&1 | grep -E "VIOLATION|KNOWN|HARNESS|tier=|key=" | cut -c1-500 >> $OUT
 done
+git -C /repo worktree remove --force $EV >/dev/null 2>&1
+rm -rf /tmp/vf_evid_$ID
 cat $OUT
